@@ -185,6 +185,7 @@ def run_check(tier, seed, nworkers=None, nruns=None, budget_s=None, evidence_pat
         "deadline_hit": [], "digests": {}, "records": {}, "max_tasks": 0,
         "model_s": 0.0, "sim_s": 0.0, "reruns": {}, "start_failures": {},
         "identity_reuse": 0, "classes_dropped": 0, "state_probes": {}, "targeted": None,
+        "slowest": [],
     }
 
     def collect(workers):
@@ -248,6 +249,10 @@ def run_check(tier, seed, nworkers=None, nruns=None, budget_s=None, evidence_pat
                 agg["max_tasks"] = max(agg["max_tasks"], msg.get("ntasks", 0))
                 agg["model_s"] += msg["model_s"]
                 agg["sim_s"] += msg["sim_s"]
+                agg["slowest"].append((round(msg["model_s"] + msg["sim_s"], 1), msg["index"],
+                                       msg["scenario"], msg.get("focus")))
+                if len(agg["slowest"]) > 64:
+                    agg["slowest"] = sorted(agg["slowest"], reverse=True)[:8]
                 agg["digests"][msg["index"]] = msg["records_digest"]
                 if want_records:
                     agg["records"][msg["index"]] = msg.get("records")
@@ -303,7 +308,8 @@ def run_check(tier, seed, nworkers=None, nruns=None, budget_s=None, evidence_pat
         for k in chosen:
             ent = [("soak", k, False), ("soak", k, False),
                    ("samekind", k, False), ("samekind", k, False), ("samekind", k, True),
-                   ("firstuse", k, True), ("firstuse", k, True), ("firstuse", k, True)]
+                   ("firstuse", k, True), ("firstuse", k, True), ("firstuse", k, True),
+                   ("pairkind", k, False), ("pairkind", k, False), ("pairkind", k, True)]
             for e in ent:
                 extra[str(idx)] = list(e)
                 idx += 1
@@ -500,6 +506,7 @@ def write_evidence(path, tier, seed, agg, wall, nviol, vs, nplan):
         "i1_checks_while_suspended": int(agg["i1_midop_checks"]),
         "probes": dict(agg["probes"].most_common(30)),
         "second_phase_aimed_at_hidden_state": agg.get("targeted"),
+        "slowest_runs_s": [list(x) for x in sorted(agg["slowest"], reverse=True)[:8]],
         "golden": dict(sstats),
         "determinism_sample": {"runs_repeated_by_another_worker": agg.get("reruns_compared", 0),
                                "digest_mismatches": sum(
